@@ -173,11 +173,37 @@ def build(pid, extra_targets=()):
                 os.remove(os.path.join(COQ, 'Props', pid + suffix))
             except OSError:
                 pass
+        # generated files (tie T) are rewritten by every run: never trust time stamps for them — a
+        # Gen/X.vo is kept only if it was compiled from exactly the present text of Gen/X.v
+        gdir = os.path.join(COQ, 'Gen')
+        gens = sorted(f for f in os.listdir(gdir) if f.endswith('.v')) if os.path.isdir(gdir) else []
+
+        def _sha(path):
+            return hashlib.sha256(open(path, 'rb').read()).hexdigest()
+        for g in gens:
+            side = os.path.join(gdir, '.' + g[:-2] + '.sha')
+            vo = os.path.join(gdir, g[:-2] + '.vo')
+            cur = _sha(os.path.join(gdir, g))
+            if os.path.exists(vo) and (not os.path.exists(side) or open(side).read() != cur):
+                for suffix in ('.vo', '.glob', '.vos', '.vok'):
+                    try:
+                        os.remove(os.path.join(gdir, g[:-2] + suffix))
+                    except OSError:
+                        pass
+        before = {g: _sha(os.path.join(gdir, g)) for g in gens}
         targets = ['Props/%s.vo' % pid, 'Corr/%s.vo' % pid] + list(extra_targets)
         p = subprocess.run(['timeout', '1500', 'make', '-j%d' % NCPU, '-k'] + targets, cwd=COQ,
                            stdout=subprocess.PIPE, stderr=subprocess.STDOUT, text=True)
         r.log = p.stdout
         r.ok = (p.returncode == 0)
+        for g in gens:
+            vo = os.path.join(gdir, g[:-2] + '.vo')
+            side = os.path.join(gdir, '.' + g[:-2] + '.sha')
+            try:
+                if os.path.exists(vo) and _sha(os.path.join(gdir, g)) == before[g]:
+                    open(side, 'w').write(before[g])
+            except OSError:
+                pass
     finally:
         fcntl.flock(lock, fcntl.LOCK_UN)
         lock.close()
